@@ -162,12 +162,6 @@ theorem session_lemma {σ} (api : Api σ) (st : σ) (rs : List Req)
       (fun x hx => hres x (by simp [hx]))
     simp [session, hc, ih']
 
-/-- the byte streams: `bss` are the encodings of `rs`, message by message -/
-def Encoded : List Req → List Bytes → Prop
-  | [], [] => True
-  | r :: rs, b :: bs => dumps r.wire = .ok b ∧ Encoded rs bs
-  | _, _ => False
-
 theorem serverRun_lemma {σ} (api : Api σ) (st : σ) (rs : List Req) (bss : List Bytes)
     (henc : Encoded rs bss)
     (hr : ∀ r ∈ rs, reqOK r = true)
@@ -234,5 +228,94 @@ theorem serverRun_exit {σ} (api : Api σ) (st : σ) (m : Option Bytes) (ms : Li
 theorem asTuple_normV (xs : List Value) (h : tupFreeList xs = true) :
     asTuple (normV (.tup xs)) = some (.tup xs) := by
   simp [normV, asTuple, normList_of_tupFree xs h]
+
+theorem expected_failing (r : ApiResult) (h : failing r = true) : ∃ m, expected r = .exception m := by
+  unfold expected
+  cases r with
+  | ok v =>
+    simp only [failing, Bool.not_eq_true'] at h
+    simp [payload, h]
+  | raised c m =>
+    by_cases hw : wf (payload (.raised c m)) = true
+    · exact ⟨normV m, by simp [hw]⟩
+    · exact ⟨.str serErrMsg, by simp [hw]⟩
+
+theorem drop_mid {α} (A : List α) (x : α) (B : List α) (n : Nat) (h : A.length = n) :
+    (A ++ x :: B).drop (n + 1) = B := by
+  subst h
+  induction A with
+  | nil => simp
+  | cons a A ih => simp
+
+theorem isolated_lemma {σ} (api : Api σ) (st : σ) (pre : List Req) (bad : Req) (suf : List Req)
+    (hr : ∀ r ∈ pre ++ bad :: suf, reqOK r = true)
+    (hres : ∀ x ∈ (inproc api st (pre ++ bad :: suf)).1, resOK x = true) :
+    (session api st (pre ++ bad :: suf)).2 = ((inproc api st (pre ++ bad :: suf)).2, none) ∧
+    clientCall api (inproc api st pre).2 bad =
+      ((inprocStep api (inproc api st pre).2 bad).1, none,
+        expected (inprocStep api (inproc api st pre).2 bad).2) ∧
+    (session api st (pre ++ bad :: suf)).1.drop (pre.length + 1) =
+      (inproc api (inprocStep api (inproc api st pre).2 bad).1 suf).1.map expected := by
+  have hs := session_lemma api st _ hr hres
+  rw [inproc_append, inproc_cons] at hres
+  refine ⟨by rw [hs], ?_, ?_⟩
+  · exact clientCall_lemma api _ bad (hr bad (by simp)) (hres _ (by simp))
+  · rw [hs, inproc_append, inproc_cons]
+    simp only [List.map_append, List.map_cons]
+    exact drop_mid _ _ _ _ (by simp [inproc_length])
+
+/-! ### the methods of `Server` on the documented argument types -/
+
+theorem normV_doc (s p f : Value) (h : docArgs s p f = true) :
+    ∃ u xs, s = .str u ∧ p = .tup xs ∧
+      normV (.tup [s, p, f]) = .arr [s, .arr xs, f] := by
+  unfold docArgs at h
+  cases s <;> simp at h
+  cases p <;> simp at h
+  rename_i u xs
+  exact ⟨u, xs, rfl, rfl, by simp [normV, normList, normList_of_tupFree xs h.1, normV_of_tupFree f h.2]⟩
+
+theorem bindArgs_exact (params : List (Bytes × Option Value)) (as : List Value)
+    (h : as.length = params.length) : bindArgs params as [] = some as := by
+  simp [bindArgs, h, fillRest]
+
+theorem server_assist {ω} (lib : Lib ω) (w : ω) (s p f : Value) (h : docArgs s p f = true) :
+    serverApply lib (w, true) (.str sAssist) (normV (.tup [s, p, f])) (normV (.map [])) =
+      (((lib.assist w s p f).1, true), (lib.assist w s p f).2) := by
+  obtain ⟨u, xs, rfl, rfl, hn⟩ := normV_doc s p f h
+  rw [hn]
+  simp [serverApply, bindArgs_exact, normV, normPairs, sAssist, sConfigure, nstr, asTuple]
+
+theorem server_location {ω} (lib : Lib ω) (w : ω) (s p f : Value) (h : docArgs s p f = true) :
+    serverApply lib (w, true) (.str sLocation) (normV (.tup [s, p, f])) (normV (.map [])) =
+      (((lib.location w s p f).1, true), (lib.location w s p f).2) := by
+  obtain ⟨u, xs, rfl, rfl, hn⟩ := normV_doc s p f h
+  rw [hn]
+  simp [serverApply, bindArgs_exact, normV, normPairs, sAssist, sLocation, sConfigure, nstr, asTuple]
+
+theorem server_lint {ω} (lib : Lib ω) (w : ω) (u : Bytes) (f so : Value) (hf : tupFree f = true)
+    (hso : tupFree so = true) :
+    serverApply lib (w, true) (.str sLint) (normV (.tup [.str u, f, so])) (normV (.map [])) =
+      afterLint true (lib.lint w (.str u) f) := by
+  simp only [normV, normList, normPairs, normV_of_tupFree f hf, normV_of_tupFree so hso]
+  simp only [serverApply]
+  simp [bindArgs_exact, sAssist, sLocation, sConfigure, sLint, nstr]
+
+theorem server_eval {ω} (lib : Lib ω) (w : ω) (hp : Bool) (u : Bytes) :
+    serverApply lib (w, hp) (.str sEval) (normV (.tup [.str u])) (normV (.map [])) =
+      (((lib.eval w (.str u)).1, hp), (lib.eval w (.str u)).2) := by
+  simp [serverApply, bindArgs_exact, normV, normList, normPairs, sAssist, sLocation, sConfigure, sLint, sEval, nstr]
+
+theorem server_configure {ω} (lib : Lib ω) (w : ω) (hp : Bool) (cfg : Value) :
+    serverApply lib (w, hp) (.str sConfigure) (normV (.tup [cfg])) (normV (.map [])) =
+      afterConfigure hp (lib.newProject w (normV cfg)) := by
+  simp [serverApply, bindArgs_exact, normV, normList, normPairs, sConfigure]
+
+theorem server_noproject {ω} (lib : Lib ω) (w : ω) (n : Bytes) (s p f : Value)
+    (hn : n = sAssist ∨ n = sLocation) :
+    serverApply lib (w, false) (.str n) (normV (.tup [s, p, f])) (normV (.map [])) =
+      (((lib.noProject w).1, false), (lib.noProject w).2) := by
+  rcases hn with rfl | rfl <;>
+    simp [serverApply, bindArgs_exact, normV, normList, normPairs, sAssist, sLocation, sConfigure]
 
 end SuppModel.Rpc
